@@ -34,6 +34,11 @@ func c17Schema() TxnSchema {
 		{Name: "Uniq", IsRoot: true, Indexes: [][]string{{"name"}, {"alt"}}, Cols: []ColSpec{{Name: "name", Type: str}, {Name: "alt", Type: str}, {Name: "n", Type: num}}},
 		// two counters whose (unique) names are exchanged by some transactions and incremented by name by others
 		{Name: "Sw", IsRoot: true, Indexes: [][]string{{"name"}}, Cols: []ColSpec{{Name: "name", Type: str}, {Name: "n", Type: num}}},
+		// a row of a non-root table with a unique name, replaced (looked at, dropped by its only owner, inserted
+		// anew under the same name) in one transaction
+		{Name: "Own", IsRoot: true, Indexes: [][]string{{"name"}}, Cols: []ColSpec{{Name: "name", Type: str}, {Name: "n", Type: num},
+			{Name: "kids", Type: ColType{Kind: "set", Key: "uuid", Min: 0, Max: -1}, RefTable: "Kid", RefType: "strong"}}},
+		{Name: "Kid", IsRoot: false, Indexes: [][]string{{"name"}}, Cols: []ColSpec{{Name: "name", Type: str}, {Name: "n", Type: num}}},
 		{Name: "Holder", IsRoot: true, Indexes: [][]string{{"name"}}, Cols: []ColSpec{{Name: "name", Type: str}, {Name: "n", Type: num},
 			{Name: "items", Type: ColType{Kind: "set", Key: "uuid", Min: 0, Max: -1}, RefTable: "Item", RefType: "strong"}}},
 		{Name: "Item", IsRoot: false, Cols: []ColSpec{{Name: "name", Type: str}, {Name: "n", Type: num}}},
@@ -103,6 +108,8 @@ func c17Run(r *Run, h int) {
 		{Op: "insert", Table: "Ctr", UUID: mkUUID(2), Row: Row{"name": VA(AS("c1")), "n": VA(AI(0))}},
 		{Op: "insert", Table: "Sw", UUID: mkUUID(21), Row: Row{"name": VA(AS("s0")), "n": VA(AI(0))}},
 		{Op: "insert", Table: "Sw", UUID: mkUUID(22), Row: Row{"name": VA(AS("s1")), "n": VA(AI(0))}},
+		{Op: "insert", Table: "Kid", UUID: mkUUID(31), Row: Row{"name": VA(AS("kid0")), "n": VA(AI(0))}},
+		{Op: "insert", Table: "Own", UUID: mkUUID(32), Row: Row{"name": VA(AS("o0")), "n": VA(AI(0)), "kids": VS(AU(mkUUID(31)))}},
 		{Op: "insert", Table: "Item", UUID: mkUUID(3), Row: Row{"name": VA(AS("i0")), "n": VA(AI(0))}},
 		{Op: "insert", Table: "Item", UUID: mkUUID(4), Row: Row{"name": VA(AS("i1")), "n": VA(AI(0))}},
 		{Op: "insert", Table: "Holder", UUID: mkUUID(5), Row: Row{"name": VA(AS("h0")), "n": VA(AI(0)), "items": VS(AU(mkUUID(3)), AU(mkUUID(4)))}},
@@ -162,7 +169,7 @@ func c17Run(r *Run, h int) {
 			n = 20 + rng.Intn(20)
 		}
 		for k := n; k > 0; k-- {
-			plans[ci] = append(plans[ci], []string{"inc", "inc", "rmw", "cas", "cas", "claim", "move", "share", "drop", "dropclaim", "lookclaim", "swap", "swinc", "swinc"}[rng.Intn(14)])
+			plans[ci] = append(plans[ci], []string{"inc", "inc", "rmw", "cas", "cas", "claim", "move", "share", "drop", "dropclaim", "lookclaim", "swap", "swinc", "swinc", "handover"}[rng.Intn(15)])
 		}
 	}
 	seeds := make([]int64, nCli)
@@ -276,6 +283,16 @@ func c17Run(r *Run, h int) {
 						ops = append(ops, OperationJ{Op: "insert", Table: "Uniq", UUID: mkUUID(300000 + ci*1000 + k), Row: Row{"name": VA(AS(nm)), "alt": VA(AS(fmt.Sprintf("drop-%d-%d", ci, k))), "n": VA(AI(int64(ci)))}})
 					}
 					ops = append(ops, logOp)
+				case "handover":
+					// the kid is looked at, then replaced: its owner's set is rewritten to hold a new row with
+					// the kid's (unique) name, so the old one goes with the commit; whatever the order of such
+					// transactions, each of them finds one kid and leaves one
+					fresh := fmt.Sprintf("fresh%d_%d", ci, k)
+					ops = []OperationJ{
+						{Op: "select", Table: "Kid", Where: []WCondJ{{Col: "name", Fn: "==", Val: VA(AS("kid0"))}}},
+						{Op: "insert", Table: "Kid", UUID: mkUUID(500000 + ci*1000 + k), UUIDName: fresh, Row: Row{"name": VA(AS("kid0")), "n": VA(AI(int64(1000*ci + k)))}},
+						{Op: "update", Table: "Own", Where: []WCondJ{{Col: "name", Fn: "==", Val: VA(AS("o0"))}}, Row: Row{"kids": VS(Atom{K: 'u', S: fresh})}},
+						logOp}
 				case "swap":
 					// the two rows of Sw exchange their names in one transaction (each step by name, through
 					// a name of its own): unique index values move between rows
@@ -507,6 +524,23 @@ func c17Run(r *Run, h int) {
 				}
 			}
 		}
+	}
+	// every replacement of the kid is accepted, and one kid is left
+	kids := 0
+	for _, row := range d {
+		if row.Table == "Kid" {
+			kids++
+		}
+	}
+	for _, t := range byMarker {
+		if t.Kind == "handover" && !t.Accepted {
+			r.Violation("serial", cs, strings.Join(t.Results, ";")+" "+t.Err, "accepted", true, "the replacement of a row (looked at, dropped by its owner, inserted anew under its unique name) was refused although every serial order accepts it", "")
+			return
+		}
+	}
+	if kids != 1 {
+		r.Violation("serial", cs, fmt.Sprint(kids), "1", true, "after the replacements of the kid there is not exactly one", "")
+		return
 	}
 	// the names of Sw are always held by exactly one row each: every increment by name hits one row, and
 	// the two counters add up to the number of increments
